@@ -167,19 +167,29 @@ def run_sessions(run, sessions, label, quiet="2ms", cfg="PoolTrace.cfg", race=Fa
 
 
 def self_test(run, sess, corrupt, label):
-    """the binding is live: a corrupted copy of a good trace must be rejected"""
+    """the binding is live: a corrupted copy of a good trace must be rejected.  sess: a session, or a list of candidates of
+    which the first whose recording contains the event to corrupt is used (a recording may lack it, e.g. when every
+    request of a small session is of a kind the pool refuses)"""
     if run.violations:
         return
     binary = run.go_build("pooldrv")
     sp = os.path.join(run.scratch, "pst-s.ndjson")
     tp = os.path.join(run.scratch, "pst-t.ndjson")
-    for p in (sp, tp):
-        if os.path.exists(p):
-            os.remove(p)
-    write_ndjson(sp, [sess])
-    run_driver(run, binary, sp, tp, nshards=1)
-    evs = read_ndjson(tp)
-    bad = corrupt(json.loads(json.dumps(evs)))
+    evs = bad = None
+    for cand in (sess if isinstance(sess, list) else [sess]):
+        for p in (sp, tp):
+            if os.path.exists(p):
+                os.remove(p)
+        write_ndjson(sp, [cand])
+        run_driver(run, binary, sp, tp, nshards=1)
+        evs = read_ndjson(tp)
+        try:
+            bad = corrupt(json.loads(json.dumps(evs)))
+            break
+        except (StopIteration, IndexError, ValueError):
+            bad = None
+    if bad is None:
+        raise Infra("self-test: none of the candidate sessions recorded the event to corrupt")
     allp = os.path.join(run.scratch, "pst-all.ndjson")
     with open(allp, "w") as f:
         for n, v in enumerate([evs, bad]):
@@ -383,7 +393,7 @@ def check_c17(run):
         pops = [i for i, e in enumerate(evs) if e["ev"] == "pop"]
         evs[pops[1]] = dict(evs[pops[1]], i=evs[pops[0]]["i"])
         return evs
-    self_test(run, sessions[0], corrupt, "good trace accepted; a second pop of an instance that is still held rejected")
+    self_test(run, sessions[:25], corrupt, "good trace accepted; a second pop of an instance that is still held rejected")
     run.cov["evaluations"] = ns
     run.cov["distinct_nontrivial"] = len({json.dumps([s["min"], s["max"], s["script"]], sort_keys=True) for s in sessions})
     run.assumptions += ["pop/push/spin are logged by build-tag hooks inside the critical sections; the request of a pop is "
@@ -454,7 +464,7 @@ def check_c06(run):
         i = next(i for i, e in enumerate(evs) if e["ev"] == "peek")
         evs[i] = dict(evs[i], val=evs[i]["val"] + 1)
         return evs
-    self_test(run, sessions[0], corrupt, "good trace accepted; a peek that observes another request's object rejected")
+    self_test(run, sessions[:25], corrupt, "good trace accepted; a peek that observes another request's object rejected")
     run.cov["evaluations"] = ns
     run.cov["distinct_nontrivial"] = len({json.dumps(s["script"], sort_keys=True) for s in sessions})
     run.assumptions += ["every request injects `req` plus a subset of {ka,kb,kc}; one rule per key reads it and logs (own id, key, id found)",
@@ -594,7 +604,7 @@ def check_c16(run):
         i = max(i for i, e in enumerate(evs) if e["ev"] == "query" and e["kind"] == "number")
         evs[i] = dict(evs[i], res=evs[i]["res"] + 1)
         return evs
-    self_test(run, sessions[0], corrupt, "good trace accepted; a wrong rule count answer rejected")
+    self_test(run, sessions[:25], corrupt, "good trace accepted; a wrong rule count answer rejected")
     run.cov["evaluations"] = ns
     run.cov["distinct_nontrivial"] = len({json.dumps(s["script"], sort_keys=True) for s in sessions})
     run.assumptions += ["every instance is reached by parking exactly max requests on gates; the serving instance is known from the pop hook",
@@ -799,7 +809,7 @@ def check_c07(run):
         i = max(i for i, e in enumerate(evs) if e["ev"] == "rule")
         evs[i] = dict(evs[i], tag=evs[i]["tag"] + 10)
         return evs
-    self_test(run, sessions[0], corrupt, "good trace accepted; an execution that mixes body tags of two versions rejected")
+    self_test(run, sessions[:25], corrupt, "good trace accepted; an execution that mixes body tags of two versions rejected")
     run.cov["evaluations"] = ns
     run.cov["distinct_nontrivial"] = len({json.dumps(s["script"], sort_keys=True) for s in sessions})
     run.assumptions += ["an update `triggered from inside a running rule` is an injected function called by a rule body",
